@@ -882,6 +882,9 @@ func checkC12(c *Ctx) {
 		// before the datagram leaves (C10-K3) and the receive loop keeps running until the connection fails (C10-K1/K2)
 		c10Send(c, a)
 		c10RecvLoop(c, a)
+		// "transmits at 0, T, 3T …": every try gets to transmit — send takes pendingMu, so the lock must be released on
+		// every exit of every function that takes it (C10-K5); a leaked lock stops all later transmissions
+		c10Locks(c, a)
 	}
 }
 
@@ -1402,7 +1405,10 @@ func c12DeadlineSource(c *Ctx, a *clientAnchors) {
 			return
 		}
 		n++
-		r.Check(u.Block() == tb, "C12-K1", key("only the try's deadline produces the internal deadline error"), c.P.ipos(u), "load of errDeadlineExceeded sits in the deadline case",
+		// … or in a block that, over feasible paths, is reached from the wait select only through the deadline case (the case
+		// reports "timed out" by a nil pair and the caller of the merged helper turns that into the sentinel)
+		viaDeadlineOnly := tb != nil && u.Block() != tb && !reachFeasible(w.sel.Block(), nil, map[*ssa.BasicBlock]bool{tb: true})[u.Block()]
+		r.Check(u.Block() == tb || viaDeadlineOnly, "C12-K1", key("only the try's deadline produces the internal deadline error"), c.P.ipos(u), "load of errDeadlineExceeded sits in the deadline case",
 			"the try reports the internal deadline error on a path other than its own deadline: the retry driver doubles the timeout and retransmits although the call should end")
 	})
 	r.Check(n >= 1, "C12-K1", key("deadline case reports the internal deadline error"), c.P.ipos(w.sel), "instance count", "no use of errDeadlineExceeded in the try")
